@@ -1,0 +1,11 @@
+//go:build verif
+
+package util
+
+// VerifWhichB64 exposes the classifier's character-class table to the
+// verification harness (see /verif). Not compiled without the "verif" tag.
+func VerifWhichB64() []int {
+	out := make([]int, len(whichB64))
+	copy(out, whichB64)
+	return out
+}
